@@ -356,14 +356,15 @@ def load_regress(prop):
 
 
 def write_replay(prop, rec):
-    d = os.path.join(VERIF_DIR, "replays", prop)
+    d = os.path.join(os.environ.get("VERIF_REPLAY_DIR") or os.path.join(VERIF_DIR, "replays"), prop)
     os.makedirs(d, exist_ok=True)
     name = hashlib.blake2b(rec["signature"].encode(), digest_size=6).hexdigest() + ".json"
     path = os.path.join(d, name)
     out = {k: v for k, v in rec.items() if not k.startswith("_")}
     with open(path, "w") as fh:
         json.dump(out, fh, indent=1, sort_keys=True)
-    return os.path.relpath(path, VERIF_DIR)
+    rel = os.path.relpath(path, VERIF_DIR)
+    return path if rel.startswith("..") else rel
 
 
 def run_property(module, tier, seed, jobs=None):
@@ -471,7 +472,7 @@ def write_evidence(module, rep, subs, wall, nviol, sub_wall):
         "wall_s": round(wall, 2),
         "violations": nviol,
     }
-    d = os.path.join(VERIF_DIR, "evidence")
+    d = os.environ.get("VERIF_EVIDENCE_DIR") or os.path.join(VERIF_DIR, "evidence")
     os.makedirs(d, exist_ok=True)
     tmp = os.path.join(d, f".{module.PROP}.json.tmp")
     with open(tmp, "w") as fh:
